@@ -60,14 +60,21 @@ fn get_wit_world(
             .exports
             .get(world_name)
             .with_context(|| format!("wit package did not contain a world named '{world_name}'"))?,
-        None if top_level_world.exports.len() == 1 => {
-            top_level_world.exports.values().next().unwrap()
-        }
-        None if top_level_world.exports.len() > 1 => {
-            bail!("wit package has multiple worlds, please specify one with the --world flag")
-        }
         None => {
-            bail!("wit package did not contain a world")
+            // Only world definitions count: the encoded WIT package also exports its interfaces.
+            let mut worlds = top_level_world
+                .exports
+                .values()
+                .filter(|item| is_world_definition(types, item));
+            match (worlds.next(), worlds.next()) {
+                (Some(world), None) => world,
+                (Some(_), Some(_)) => {
+                    bail!(
+                        "wit package has multiple worlds, please specify one with the --world flag"
+                    )
+                }
+                (None, _) => bail!("wit package did not contain a world"),
+            }
         }
     };
     let ItemKind::Type(wac_types::Type::World(world_id)) = world else {
@@ -81,6 +88,18 @@ fn get_wit_world(
         bail!("wit package was not encoded properly")
     };
     Ok(*w)
+}
+
+/// Whether an export of the encoded WIT package is a world definition: a component type whose
+/// first export is itself a component type (an interface is wrapped around an instance instead).
+fn is_world_definition(types: &Types, item: &ItemKind) -> bool {
+    match item {
+        ItemKind::Type(wac_types::Type::World(id)) => matches!(
+            types[*id].exports.values().next(),
+            Some(ItemKind::Component(_))
+        ),
+        _ => false,
+    }
 }
 
 /// Encodes the wit package found at `path` into a component
